@@ -271,6 +271,38 @@ var c05cells = []c05cell{
 		_, ref := r.Get(hlref.FRefNum)
 		return r, []bool{okReply(r) && ref}
 	}},
+	// the name field may carry anything; the upload it governs happens where the path field says (the folder the
+	// upload-anywhere rule looked at), so the file must land inside that upload folder
+	{name: "upload-file:into-uploads:dotdot-name", effects: [][]int{{hlref.PrivUploadFile}}, run: func(x *c05ctx) (*hlref.Tran, []bool) {
+		r := x.req.Request(hlref.TranUploadFile, sfld(hlref.FFileName, "../esc.bin"), fld(hlref.FFilePath, p1("Uploads")), fld(hlref.FTransferSize, hlref.BE32(300)))
+		ref, ok := r.Get(hlref.FRefNum)
+		if !okReply(r) || !ok {
+			return r, []bool{false}
+		}
+		stream := hlsim.UploadStream([]byte("esc.bin"), nil, []byte("uploaded payload"), nil, 2)
+		x.w.Transfer("10.0.0.77:2", ref, len(stream), stream, -1)
+		return r, []bool{fileHas(filepath.Join(x.w.FileRoot, "Uploads", "esc.bin"), "uploaded payload")}
+	}},
+	{name: "upload-folder:into-uploads:dotdot-name", effects: [][]int{{hlref.PrivUploadFolder}}, run: func(x *c05ctx) (*hlref.Tran, []bool) {
+		r := x.req.Request(hlref.TranUploadFldr, sfld(hlref.FFileName, "../escf"), fld(hlref.FFilePath, p1("Uploads")), fld(hlref.FTransferSize, hlref.BE32(300)), fld(hlref.FFolderItemCount, hlref.BE16(1)))
+		ref, ok := r.Get(hlref.FRefNum)
+		if !okReply(r) || !ok {
+			return r, []bool{false}
+		}
+		x.w.FolderUpload("10.0.0.77:3", ref, []hlsim.UploadItem{{Path: [][]byte{[]byte("item.txt")}, Data: []byte("uploaded item")}})
+		return r, []bool{fileHas(filepath.Join(x.w.FileRoot, "Uploads", "escf", "item.txt"), "uploaded item")}
+	}},
+	// rename is not move: a new name cannot take the entry to another folder
+	diskCell("rename:folder:dotdot-name", []int{hlref.PrivRenameFolder}, hlref.TranSetFileInfo,
+		func(x *c05ctx) []hlref.Field {
+			return []hlref.Field{sfld(hlref.FFileName, "deep"), fld(hlref.FFilePath, p1("dir")), sfld(hlref.FFileNewName, "../deep2")}
+		},
+		func(x *c05ctx) bool { return exists(x.w.FileRoot, "dir", "deep2") && !exists(x.w.FileRoot, "dir", "deep") }),
+	diskCell("rename:file:dotdot-name", []int{hlref.PrivRenameFile}, hlref.TranSetFileInfo,
+		func(x *c05ctx) []hlref.Field {
+			return []hlref.Field{sfld(hlref.FFileName, "inner.txt"), fld(hlref.FFilePath, p1("dir")), sfld(hlref.FFileNewName, "../inner2.txt")}
+		},
+		func(x *c05ctx) bool { return exists(x.w.FileRoot, "dir", "inner2.txt") && !exists(x.w.FileRoot, "dir", "inner.txt") }),
 	uploadFolderCell("upload-folder:into-uploads", []int{hlref.PrivUploadFolder}, p1("Uploads")),
 	uploadFolderCell("upload-folder:into-dropbox", []int{hlref.PrivUploadFolder}, p1("Drop Box")),
 	uploadFolderCell("upload-folder:elsewhere", []int{hlref.PrivUploadFolder, hlref.PrivUploadAnywhere}, p1("other")),
